@@ -1,7 +1,7 @@
 (* Props/C14Links.v — property C14, third leg: the note other notes reach by linking to <path> is
    the note loaded from the file <path>.md.  Only statements, each closed by an `exact`, pinned by
    a `Check`, and followed by `Print Assumptions`. *)
-From IweV Require Import Str RelPath RelPathFacts Arena Url UrlFacts LinkPaths LinkPathsFacts.
+From IweV Require Import Str Ast RelPath RelPathFacts Arena Url UrlFacts LinkPaths LinkPathsFacts.
 Local Open Scope string_scope.
 Local Open Scope list_scope.
 
@@ -23,6 +23,25 @@ Check C14_link_reaches :
     link_target (dirs ++ [stem]) url = Some t ->
     t <> [] /\ from_rel_link_url url (key_parent (disk_key (dirs ++ [stem]))) = disk_key t.
 Print Assumptions C14_link_reaches.
+
+(* The same for a link INSIDE A SENTENCE (F-C14-inline-dir, repaired): the url the graph holds for it - what
+   find-references and rename compare (GraphInline::ref_key) - is the loader's key of the file the link names from
+   the linking file's directory. *)
+Theorem C14_inline_link_reaches :
+  forall (dirs : list string) (stem url title : string) (lt : link_type) (ils : list inline) (t : list string),
+    Forall good_name dirs -> good_name stem ->
+    link_target (dirs ++ [stem]) url = Some t ->
+    to_ginline (key_parent (disk_key (dirs ++ [stem]))) (Link url title lt ils) =
+    Link (disk_key t) title lt (map (to_ginline (key_parent (disk_key (dirs ++ [stem])))) ils).
+Proof. exact inline_link_reaches. Qed.
+
+Check C14_inline_link_reaches :
+  forall (dirs : list string) (stem url title : string) (lt : link_type) (ils : list inline) (t : list string),
+    Forall good_name dirs -> good_name stem ->
+    link_target (dirs ++ [stem]) url = Some t ->
+    to_ginline (key_parent (disk_key (dirs ++ [stem]))) (Link url title lt ils) =
+    Link (disk_key t) title lt (map (to_ginline (key_parent (disk_key (dirs ++ [stem])))) ils).
+Print Assumptions C14_inline_link_reaches.
 
 (* A note link (not http/https/mailto, last component a name) that leaves the library gets a key
    that no file with legal names has: it reaches no note. *)
